@@ -89,6 +89,10 @@ class ConditionalSMCSampler(AbstractSMCSampler):
         self.iteration += 1
 
     def _resample_swarm(self):
+        if self.iteration >= self.num_iterations:
+            # All data points are already in the swarm (single data point): nothing left to propagate
+            return
+
         if self.swarm.relative_ess <= self.resample_threshold:
             new_swarm = ParticleSwarm()
 
